@@ -111,7 +111,7 @@ LEAN_TYPE = {'Dt': 'Int', 'Td': 'Int', 'Int': 'Int', 'Bool': 'Bool', 'TI': 'GV.T
 
 def lean_type(t):
     if t.startswith('Except '):
-        return 'Except String ' + _paren(lean_type(t[7:]))
+        return 'Except String ' + _ptype(lean_type(t[7:]))
     if t.startswith('Prod '):
         return ' × '.join(_paren(lean_type(p)) for p in _prod_parts(t))
     if t.startswith('List '):
@@ -129,6 +129,22 @@ def lean_type(t):
     if t in LEAN_TYPE:
         return LEAN_TYPE[t]
     return t
+
+
+def _ptype(s):
+    """a Lean type as an argument: parenthesised unless atomic or already enclosed (`(A) × B` is not enclosed)"""
+    if ' ' not in s:
+        return s
+    if s.startswith('('):
+        depth = 0
+        for i, ch in enumerate(s):
+            depth += ch == '('
+            depth -= ch == ')'
+            if depth == 0:
+                if i == len(s) - 1:
+                    return s
+                break
+    return f'({s})'
 
 
 def _paren(s):
@@ -611,6 +627,7 @@ class FnTr:
                     return '\n'.join(lets + [self.wrap(f'let {nm} := {v.text}\n{inner}')])
                 lets.append(f'let {nm} := {v.text}')
                 self.env[t.id] = Val(nm, v.typ, path=t.id)
+                self.env[t.id].fresh_dict = getattr(v, 'fresh_dict', False)       # a dict made here may be stored into
                 self.narrow.pop(t.id, None)
             elif isinstance(t, ast.Attribute) and isinstance(t.value, ast.Name) and t.value.id == 'self' \
                     and self.inst.qual.endswith('.__init__'):
@@ -919,9 +936,10 @@ class FnTr:
                     return k
                 txt = self.branch(e.test, arm(e.body), arm(e.orelse))
                 real = [t for t in types if t != 'None']
-                if not real or any(t != real[0] for t in real):
+                base = [t[4:] if t.startswith('Opt ') else t for t in real]       # `x.z if x.z is not None else y.z`: T / Optional[T]
+                if not real or any(t != base[0] for t in base):
                     raise Unsupported(f'conditional expression of types {types}')
-                typ = ('Opt ' + real[0]) if 'None' in types and not real[0].startswith('Opt ') else real[0]
+                typ = ('Opt ' + base[0]) if 'None' in types or any(t.startswith('Opt ') for t in real) else real[0]
                 import re as _re
 
                 def fix(m):
@@ -1302,26 +1320,29 @@ class FnTr:
         return None
 
     def local_def(self, s, rest):
-        """a nested `def`: a local Lean function (`let f := fun … => …`); its parameter and result types are declared by
-        the unit (`hooks['local_fn']`); names of the enclosing function stay visible"""
+        """a nested `def` that reads nothing but its own parameters (and module-level names): an auxiliary definition
+        emitted before the function, like a loop; its parameter and result types are declared by the unit
+        (`hooks['local_fn']`)"""
         hook = self.u.hooks.get('local_fn')
         spec = hook(self.inst.qual, s.name) if hook else None
         if not spec or s.decorator_list:
             raise Unsupported(f'`{self.inst.qual}`: nested function `{s.name}` without declared types')
         params, ret = spec
-        inst = Inst(f'{self.inst.qual}.<locals>.{s.name}', s.name, params, ret)
-        sub = FnTr(self.u, inst, s)
-        for n, v in self.env.items():
-            sub.env.setdefault(n, v)
-        sub.fresh, sub.aux = self.fresh, self.aux
+        name = f'{self.inst.lean}.{s.name.lstrip("_")}'
+        inst = Inst(f'{self.inst.qual}.<locals>.{s.name}', name, params, ret)
+        sub = FnTr(self.u, inst, s)              # its own scope: a captured local of the enclosing function is "unknown name"
+        sub.aux = self.aux
+        self.aux.append(None)
+        slot = len(self.aux) - 1
         body = sub.function_body()
-        self.fresh = sub.fresh
-        nm = self.gensym(lname(s.name))
-        binders = ' '.join(f'({lname(n)} : {lean_type(t)})' for n, t in params if t != 'None') or '(_ : Unit)'
-        v = Val(nm, 'LocalFn')
+        binders = ' '.join([f'({n} : {t})' for n, t in self.u.ctx_params] +
+                           [f'({lname(n)} : {lean_type(t)})' for n, t in params if t != 'None'])
+        self.aux[slot] = '\n'.join([f'/-- the nested function `{s.name}` of `{self.inst.qual}` -/',
+                                    f'def {name} {binders} : {lean_type(ret)} :=', _indent(body)])
+        v = Val(name, 'LocalFn')
         v.localfn = inst
         self.env[s.name] = v
-        return f'let {nm} := fun {binders} => (show {lean_type(ret)} from\n{_indent(body, 4)})\n' + self.block(rest)
+        return self.block(rest)
 
     def ret_with_state(self, v):
         """`return v` of a function that mutates some of its parameters (`Inst.state`): the result paired with the final
@@ -1458,19 +1479,22 @@ class FnTr:
         to_j = self.u.hooks.get('to_j')
         if not to_j:
             raise Unsupported(f'`{self.inst.qual}`: dict display `{ast.unparse(e)[:60]}`')
-        acc = '([] : GV.GeoJson.Obj)'
+        acc = None
         for k, v in zip(e.keys, e.values):
             if k is None:
                 d = self.expr(v)
+                if d.typ != 'JObj' and 'as_dict' in self.u.hooks:
+                    d = self.u.hooks['as_dict'](self, d) or d
                 if d.typ != 'JObj':
                     raise Unsupported(f'`**` of {d.typ} in a dict display')
-                acc = f'(GV.GeoJson.oupdate {acc} {d.text})'
+                # `{**a, **b}` is the model's `oupdate a b`: a leading spread is a copy of that dict
+                acc = d.text if acc is None else f'(GV.GeoJson.oupdate {acc} {d.text})'
             else:
                 kk, vv = self.expr(k), self.expr(v)
                 if kk.typ != 'Str':
                     raise Unsupported(f'dict key of type {kk.typ}')
-                acc = f'(GV.GeoJson.oset {acc} {kk.text} {to_j(self, vv)})'
-        r = Val(acc, 'JObj')
+                acc = f'(GV.GeoJson.oset {acc or "([] : GV.GeoJson.Obj)"} {kk.text} {to_j(self, vv)})'
+        r = Val(acc or '([] : GV.GeoJson.Obj)', 'JObj')
         r.fresh_dict = True
         return r
 
@@ -1483,8 +1507,8 @@ class FnTr:
                 args = [self.expr(a) for a in e.args]
                 if len(args) > len(inst.params) or [a.typ for a in args] != [t for _n, t in inst.params[:len(args)]]:
                     raise Unsupported(f'`{f.id}` applied to ({", ".join(a.typ for a in args)})')
-                shown = [_paren(a.text) for a, (_n, t) in zip(args, inst.params) if t != 'None'] or ['()']
-                v = Val('(' + ' '.join([self.env[f.id].text] + shown) + ')', inst.value_type)
+                shown = [_paren(a.text) for a, (_n, t) in zip(args, inst.params) if t != 'None']
+                v = Val('(' + ' '.join([self.env[f.id].text] + [n for n, _t in self.u.ctx_params] + shown) + ')', inst.value_type)
                 v.raises = inst.raises
                 return v
             if f.id == 'sum' and len(e.args) == 1 and isinstance(e.args[0], (ast.GeneratorExp, ast.ListComp)) \
@@ -1543,7 +1567,7 @@ class FnTr:
         self.fresh = inner.fresh
         if inner.pending:
             body = inner.wrap(f'Except.ok {_paren(v.text)}')
-            r = Val(f'(GV.Py.mapE (fun {x} => (show Except String {_paren(lean_type(v.typ))} from\n{_indent(body, 4)})) {_paren(xs.text)})',
+            r = Val(f'(GV.Py.mapE (fun {x} => (show Except String {_ptype(lean_type(v.typ))} from\n{_indent(body, 4)})) {_paren(xs.text)})',
                     'List ' + v.typ)
             r.raises = True
             return r
